@@ -19,6 +19,7 @@ import (
 	"golang.org/x/sync/semaphore"
 
 	"github.com/benbjohnson/litestream/internal"
+	"github.com/benbjohnson/litestream/verifhook"
 )
 
 // Default replica settings.
@@ -219,6 +220,7 @@ func (r *Replica) syncOnce(ctx context.Context, maxSyncLTXFiles int) (result rep
 		if err := ctx.Err(); err != nil {
 			return result, context.Cause(ctx)
 		}
+		verifhook.Yield("replica:before_upload")
 		if err := r.uploadLTXFile(ctx, 0, txID, txID); err != nil {
 			return result, err
 		}
@@ -234,6 +236,7 @@ func (r *Replica) syncOnce(ctx context.Context, maxSyncLTXFiles int) (result rep
 }
 
 func (r *Replica) lockSync(ctx context.Context) error {
+	verifhook.Yield("replica:lock_sync")
 	if r.syncSem.TryAcquire(1) {
 		return nil
 	}
